@@ -29,10 +29,12 @@ def drive(ctx, hists, name):
 def _slim(line):
     """drop fields TLC does not need (raw hex) to keep the trace small"""
     e = json.loads(line)
-    for k, ps in e.get("out", {}).items():
-        for p in ps:
-            p.pop("hex", None)
-    e.pop("sent", None) if not _slim.keep_sent else None
+    if not _slim.keep_sent:
+        for k, ps in e.get("out", {}).items():
+            for p in ps:
+                p.pop("hex", None)
+    if not _slim.keep_sent:
+        e["sent"] = {}
     return json.dumps(e, separators=(",", ":"))
 
 
@@ -115,7 +117,7 @@ def ops_of(history):
 def report(ctx, complaints, prefix):
     """known findings vs violations. A finding matches on rule and on every key of its 'match' dict."""
     import collections
-    hist = collections.Counter((c["rule"], c["x"]) if c["rule"].endswith("failure") else (c["rule"],) for c in complaints)
+    hist = collections.Counter((c["rule"], c["x"]) if c["rule"].endswith("failure") else ((c["rule"], c["x"]) if c["rule"].startswith("C38") else (c["rule"],)) for c in complaints)
     if hist:
         ctx.log("complaints by rule: " + ", ".join("%s=%d" % ("/".join(map(str, k)), v) for k, v in sorted(hist.items())))
     for c in complaints:
@@ -281,6 +283,104 @@ def session_check(ctx):
                    samples=sample_ops(traces), complaints=len(comp))
 
 
+MIXED = {
+    # property: (generator, profile, config knobs)
+    "C23": ("routing", dict(versions=[5, 4, 3], shared=0.1, nolocal=0.1, props=0.3, subid=0.3, qos=[0, 1, 2], retain=0.3, sys_topics=0.1, bad_filters=0.15,
+                            acl=3, wills=0.4, mps=[0, 0, 40, 60], rpi=[-1, 0, 1], pad=0.3, p_clean=0.4, ack=True,
+                            weights=dict(subscribe=5, unsubscribe=2, publish=9, disconnect=2, connect=4, tick=1)), dict(obscure=[False, True])),
+    "C24": ("routing", dict(versions=[5, 5, 4], tam=[0, 1, 2, 2], rm=[0, 0, 1], mps=[0, 0, 0, 50], pad=0.2, pads=[60], qos=[0, 1, 1], in_alias=0.5, alias_max=2,
+                            filters=[["a"], ["b"], ["a", "b"], ["#"], ["+"]], topics=[["a"], ["b"], ["a", "b"]], p_clean=0.3, sei=[300],
+                            weights=dict(subscribe=5, unsubscribe=1, publish=12, disconnect=1, connect=3)), dict(topic_alias_max=[2, 2, 0], max_pending=[8192, 8192, 1])),
+    "C25": ("routing", dict(versions=[5, 5, 4], qos=[0, 1, 1], retain=0.5, mei=[0, 0, 20, 50, 200], rm=[0, 0, 1], sei=[300], p_clean=0.2, ack=False,
+                            ticks=["retained", "inflight", "retained", "inflight", "clients"], dts=[0, 30, 70, 150, 400],
+                            filters=[["a"], ["b"], ["#"], ["a", "#"]], topics=[["a"], ["b"], ["a", "b"]],
+                            weights=dict(subscribe=6, unsubscribe=1, publish=9, disconnect=2, connect=3, tick=7)), dict(max_msg_expiry=[86400, 100, 0, 40])),
+    "C34": ("routing", dict(versions=[5, 5, 4], qos=[0, 1, 1, 2], retain=0.5, topics=gen.TOPICS[:6], mps=[0, 0, 40, 60], pad=0.4, pads=[30, 80, 300], rm=[0, 0, 2], sei=[300], p_clean=0.5,
+                            weights=dict(subscribe=5, unsubscribe=1, publish=14, disconnect=1, connect=2)),
+            dict(write_buf=[16, 32, 64, 2048], max_pending=[1, 2, 3, 8192], max_inflight=[8192, 8192, 2])),
+    "C38": ("routing", dict(versions=[5, 5, 4], shared=0.15, qos=[0, 1, 2], retain=0.4, empty_payload=0.3, rm=[0, 0, 1, 2], sei=[-1, 0, 30, 300], p_clean=0.4, ack=False,
+                            ticks=["clients", "retained", "inflight"], dts=[0, 50, 400],
+                            weights=dict(subscribe=6, unsubscribe=3, publish=9, disconnect=3, connect=5, tick=3)), dict(max_inflight=[8192, 8192, 2], max_msg_expiry=[86400, 100])),
+    "C40": ("routing", dict(versions=[5, 5, 4], shared=0.1, qos=[0, 1, 2], retain=0.4, empty_payload=0.2,
+                            filters=[["a"], ["a", "#"], ["a", "+"], ["#"], ["b"], ["+", "#"]], topics=[["a"], ["a", "b"], ["b"], ["$a", "b"]],
+                            weights=dict(subscribe=4, unsubscribe=1, publish=6, disconnect=1, connect=1, inline_publish=8, inline_subscribe=6, inline_unsubscribe=3)), dict(inline=[True])),
+    "C30": ("routing", dict(versions=[5, 4, 3], bad_filters=0.5, qos=[0, 1], weights=dict(subscribe=10, unsubscribe=1, publish=4, disconnect=1, connect=1)), dict()),
+}
+MIXED_ENFORCE = {"C40": ["C40", "C03", "C04"]}
+
+
+def mixed_histories(ctx, pid, n):
+    rng = random.Random("%s-%d" % (pid, ctx.seed))
+    genname, prof, knobs = MIXED[pid]
+    hs = []
+    for i in range(n):
+        c = gen.cfg()
+        if prof.get("acl"):
+            dr, dw = gen.random_acl(rng, ["c1", "c2", "c3", "c4"], gen.TOPICS, gen.FILTERS, rng.randint(0, prof["acl"]))
+            c.update(auth="acl", deny_read=dr, deny_write=dw)
+        for k, vals in knobs.items():
+            c[k] = rng.choice(vals)
+        if pid == "C23" and i % 3 == 2:     # error paths of CONNECT and session ends as well
+            c.update(deny_conn=["denied"], auth=rng.choice(["acl", "acl", "none"]), min_proto=rng.choice([3, 3, 4]))
+            hs.append(dict(name="%s-%d-%d" % (pid, ctx.seed, i), cfg=c, ops=gen.session_history(rng, dict(SESSION_PROFILES["C13"], versions=[5, 4, 3]))))
+            continue
+        hs.append(dict(name="%s-%d-%d" % (pid, ctx.seed, i), cfg=c, ops=gen.routing_history(rng, prof)))
+    return hs
+
+
+def mixed_check(ctx):
+    pid = ctx.pid
+    n = 120 if ctx.quick else 1500
+    hs = mixed_histories(ctx, pid, n)
+    traces = drive(ctx, hs, pid.lower())
+    comp, lines, states = validate(ctx, traces, MIXED_ENFORCE.get(pid, [pid]), pid.lower(), keep_sent=(pid == "C34"))
+    for p in MIXED_ENFORCE.get(pid, [pid]):
+        report(ctx, comp, p) if p == pid else None
+    if pid == "C40":      # C40 also relies on the routing/attribute rules for inline publishes: report those under C40 as well
+        report(ctx, [dict(c, rule="C40/" + c["rule"]) for c in comp if not c["rule"].startswith("C40") and c["ev"].startswith("inline")], "C40")
+    nt = nontrivial(traces, lambda e: e["ev"] not in ("Config",) and "%s-%s" % (e["ev"], sorted((k == e["k"], p["t"], p["qos"], p["rc"], p["wf"], p["alias"] > 0, p["ts"] == "") for k, ps in e["out"].items() for p in ps)))
+    ctx.cov.update(_level="model_checking", states=max(states, 1), transitions=max(lines, 1),
+                   traces_validated_against_impl=len(traces), evaluations=lines, distinct_nontrivial=len(nt),
+                   rule="seeded random histories (profile %s) executed on the real broker; every step judged by TLC with Enforce=%s; distinct_nontrivial = distinct (op kind x packets written) classes" % (pid, MIXED_ENFORCE.get(pid, [pid])),
+                   samples=sample_ops(traces), complaints=len(comp))
+
+
+def c19_check(ctx):
+    pid = "C19"
+    rng = random.Random("%s-%d" % (pid, ctx.seed))
+    behaviours = ["pass", "pass", "topic:a/b", "payload:zz", "reject", "ignore", "code", "error"]
+    hs = []
+    # exhaustive over stacks of 1-2 hooks x behaviours (quick) / 1-3 hooks (thorough), random histories on top
+    import itertools
+    stacks = []
+    for n in ((1, 2) if ctx.quick else (1, 2, 3)):
+        for combo in itertools.product(sorted(set(behaviours)), repeat=n):
+            stacks.append(combo)
+    rng.shuffle(stacks)
+    stacks = stacks[: (80 if ctx.quick else 600)]
+    for i, combo in enumerate(stacks):
+        scripted = [dict(name="h%d" % j, on_publish=b, on_read="", on_sub="", auth="", acl="") for j, b in enumerate(combo)]
+        if rng.random() < 0.15:
+            scripted[rng.randrange(len(scripted))]["on_read"] = "reject"
+        auth = "allow"
+        if rng.random() < 0.3:       # authentication: any-of over the scripted hooks only
+            auth = "acl_only"
+            for h in scripted:
+                h["auth"] = rng.choice(["", "allow", "deny"])
+        c = gen.cfg(scripted=scripted, auth=auth)
+        prof = dict(versions=[5, 4], qos=[0, 1, 2], retain=0.4, topics=[["a"], ["a", "b"], ["b"]], filters=[["#"], ["a", "#"], ["b"]], p_clean=1.0,
+                    weights=dict(subscribe=3, publish=10, connect=1, disconnect=0, unsubscribe=0), len=(8, 16))
+        hs.append(dict(name="C19-%d-%d" % (ctx.seed, i), cfg=c, ops=gen.routing_history(rng, prof)))
+    traces = drive(ctx, hs, "c19")
+    comp, lines, states = validate(ctx, traces, ["C19"], "c19")
+    report(ctx, comp, "C19")
+    nt = set(tuple(h["on_publish"] for h in x["cfg"]["scripted"]) for x in hs)
+    ctx.cov.update(_level="model_checking", states=max(states, 1), transitions=max(lines, 1), traces_validated_against_impl=len(traces),
+                   evaluations=lines, distinct_nontrivial=len(nt),
+                   rule="stacks of scripted test hooks (OnPublish behaviour in {pass, modify topic, modify payload, ErrRejectPacket, CodeSuccessIgnore, packets.Code error, plain error}; OnPacketRead reject; any-of authentication) x protocol version x QoS x retain; TLC folds the chain (ChainPub in TraceBroker.tla) and judges order/short-circuit, no forward, no retain. distinct_nontrivial = distinct hook stacks",
+                   samples=[x["cfg"]["scripted"] for x in hs[:2]], complaints=len(comp))
+
+
 def routing_check(ctx):
     pid = ctx.pid
     n = 120 if ctx.quick else 1500
@@ -298,3 +398,5 @@ def routing_check(ctx):
 FAMILY = {p: routing_check for p in ENFORCE}
 FAMILY.update({p: qos_check for p in QOS_PROFILES})
 FAMILY.update({p: session_check for p in SESSION_PROFILES})
+FAMILY.update({p: mixed_check for p in MIXED if p != "C30"})
+FAMILY["C19"] = c19_check
